@@ -61,3 +61,24 @@ add("C10", "exploration",
     "R in {5,255,256,1000,65535,absent}: fill-to-the-limit runs and long random histories. distinct = distinct (R, abstract trace shape).",
     {"quick": ["checked", "fast"], "thorough": ["checked", "fast"]},
     {"quick": {"quota_refusals_seen": 2000, "slot_releases": 2000, "quota_probes": 1000}, "thorough": {"quota_refusals_seen": 100000}})
+
+add("C13", "fault_enumeration",
+    "terminating causes are injected in every enumerated session state: connect()/authorize() against all 22 CONNACK reasons, AUTH challenges and transport faults after every prefix of the response; "
+    "run() against all 28 server DISCONNECT reasons x short/full forms x properties x 5 session states, user DISCONNECT, EOF, read/write error, undecodable input and handle drop, with and without requests queued behind the cause; "
+    "plus bounded-exhaustive paths with the cause at every position. Expected value per cause from the model; `run() returned although no cause was injected` is also a violation. "
+    "distinct = distinct (cause, parameters, state) tuples / abstract trace shapes.",
+    {"quick": ["checked"], "thorough": ["checked", "fast"]},
+    {"quick": {"terminations_checked": 2000, "connect_outcomes_checked": 80, "connect_faults_checked": 50}, "thorough": {"terminations_checked": 100000}})
+
+add("C14", "fault_enumeration",
+    "crash-point enumeration: drop(context) is offered at every step of every bounded path (operations created-not-polled, queued behind a stalled writer, awaiting their ack, between the QoS 2 phases, "
+    "held with a delivered ack; streams with and without buffered items, taken or not); afterwards the wake-only executor runs to quiescence and every future / stream must have completed as stated. "
+    "distinct = distinct abstract trace shapes.",
+    {"quick": ["checked"], "thorough": ["checked", "fast"]},
+    {"quick": {"context_exited_results_seen": 5000}, "thorough": {"context_exited_results_seen": 200000}})
+
+add("C15", "exploration",
+    "bounded-exhaustive interleavings in which any pending future (or stream) is cancelled at any point, for Receive Maximum 1, 2 and unlimited; run() must stay pending, other operations keep their own results "
+    "(C05/C07 rules stay active), late acknowledgements are delivered, and an end-of-script probe counts free flow-control slots. distinct = distinct (R, abstract trace shape).",
+    {"quick": ["checked"], "thorough": ["checked", "fast"]},
+    {"quick": {"cancellations": 5000, "late_acks_for_cancelled_ops": 500, "quota_probes": 1000}, "thorough": {"cancellations": 500000}})
